@@ -663,7 +663,7 @@ class _StubTable:
         self.calls.append(('check_in', url, status.value))
 
     def add_many(self, *a, **k):
-        self.calls.append(('add_many',))
+        self.calls.append(('add_many', [getattr(x, 'url', None) for x in (a[0] if a else [])]))
 
     def update_one(self, *a, **k):
         pass
@@ -698,7 +698,7 @@ def ftp_proc_once(plan, data, url, glob_on, preserve, seed, opts=None):
         with net:
             pool = ConnectionPool(resolver=fakenet.FakeResolver())
             client = Client(connection_pool=pool)
-            table = _StubTable()
+            table = (opts or {}).get('table') or _StubTable()
             from wpull.urlfilter import DemuxURLFilter
             o = opts or {}
             writer = NullWriter()
@@ -737,7 +737,8 @@ def ftp_proc_once(plan, data, url, glob_on, preserve, seed, opts=None):
             r.link_type = None
             item = ItemSession(types.SimpleNamespace(factory=factory, root_path=tmp), r)
             proc = FTPProcessor(client, FTPProcessorFetchParams(glob=glob_on, preserve_permissions=preserve,
-                                                                retr_symlinks=o.get('retr_symlinks', True)))
+                                                                retr_symlinks=o.get('retr_symlinks', True),
+                                                                remove_listing=o.get('remove_listing', True)))
             task = asyncio.ensure_future(compat._ensure(proc.process(item)))
             done = await fakenet.settle(task, [], extra=400)
             if not done:
